@@ -1113,7 +1113,12 @@ def realise(prog, rng: random.Random, style: str = "lazy") -> Realised:
         elif o == "ReduceSum":
             outs = [op.reduce_sum(a[0], a[1], keepdims=n["attrs"]["keepdims"])]
         elif o == "Split":
-            outs = list(op.split(a[0], a[1], outputs_count=n["attrs"]["outputs"], axis=n["attrs"]["axis"]))
+            import inspect
+
+            if "outputs_count" in inspect.signature(op.split).parameters:
+                outs = list(op.split(a[0], a[1], outputs_count=n["attrs"]["outputs"], axis=n["attrs"]["axis"]))
+            else:  # opset >= 18: the number of outputs is the `num_outputs` argument
+                outs = list(op.split(a[0], a[1], num_outputs=n["attrs"]["outputs"], axis=n["attrs"]["axis"]))
         elif o == "TopK":
             outs = list(op.top_k(a[0], a[1], axis=n["attrs"]["axis"], largest=n["attrs"]["largest"]))
         elif o == "If":
@@ -1762,3 +1767,72 @@ def shrink(prog, bindings: list[dict], still_fails, budget: int = 120):
             if progress:
                 break
     return cur, curb
+
+
+def skeleton2_programs(max_uses: int = 3) -> Iterator[tuple[dict, str]]:
+    """Exhaustive family aimed at scope assignment *below a body with formals*: inside a Loop (or
+    Scan) body, a value `s` that DEPENDS ON THE BODY'S FORMALS is used in every non-empty subset
+    (|subset| ≤ max_uses) of eight graphs at three different depths below the body:
+
+        body ▸ If B { then ▸ If C { then ▸ If E { then, else }, else },  else ▸ If D { then, else } }
+
+    places: body, B.then, B.else, C.then, C.else, D.then, D.else, E.then.  So `s` is shared between
+    siblings and cousins at equal and at different depths, with the deeper use on either side; where
+    (and in which order) it is created is the realisation style's choice.  Yields (prog, tag)."""
+    places = ["body", "B.then", "B.else", "C.then", "C.else", "D.then", "D.else", "E.then"]
+    for kind in ("Loop", "Scan"):
+        for r in range(1, max_uses + 1):
+            for uses in itertools.combinations(range(8), r):
+                for two in (False, True):
+                    yield _skeleton2(set(uses), two, kind), kind + ":" + "+".join(places[u] for u in uses) + ("/w" if two else "")
+
+
+def _skeleton2(uses: set, two: bool, kind: str) -> dict:
+    nodes: list[dict] = []
+
+    def add(op, ins=(), subs=(), attrs=None, tys=()):
+        nodes.append({"op": op, "ins": [list(r) if r else None for r in ins], "subs": list(subs), "attrs": dict(attrs or {}), "ty": [list(t) for t in tys]})
+        return len(nodes) - 1
+
+    V = ty("i64", [N])
+    x = add("arg", attrs={"role": "main"}, tys=[V])
+    c = add("arg", attrs={"role": "main"}, tys=[ty("bool", [])])
+    d = add("arg", attrs={"role": "main"}, tys=[ty("bool", [])])
+    if kind == "Loop":
+        n = add("arg", attrs={"role": "main", "range": "trip"}, tys=[ty("i64", [])])
+        it = add("arg", attrs={"role": "formal"}, tys=[ty("i64", [], True)])
+        cn = add("arg", attrs={"role": "formal"}, tys=[ty("bool", [], True)])
+        acc = add("arg", attrs={"role": "formal"}, tys=[V])
+        other = (it, 0)
+        formals = [it, cn, acc]
+    else:
+        xs = add("arg", attrs={"role": "main"}, tys=[ty("i64", [2, N])])
+        acc = add("arg", attrs={"role": "formal"}, tys=[V])
+        sl = add("arg", attrs={"role": "formal"}, tys=[V])
+        other = (sl, 0)
+        formals = [acc, sl]
+    s = add("Mul", [(acc, 0), other], tys=[V])
+    if two:
+        s2 = add("Neg", [(s, 0)], tys=[V])
+        s = add("Add", [(s2, 0), (acc, 0)], tys=[V])
+
+    def use(place, base):
+        if place in uses:
+            return (add("Add", [base, (s, 0)], tys=[V]), 0)
+        return base
+
+    def iff(cond, t, e):
+        return (add("If", [(cond, 0)], [{"args": [], "res": [list(t)]}, {"args": [], "res": [list(e)]}], tys=[V]), 0)
+
+    e_out = iff(c, use(7, (acc, 0)), (acc, 0))
+    c_out = iff(d, use(3, e_out), use(4, (acc, 0)))
+    bt = use(1, c_out)
+    d_out = iff(d, use(5, (acc, 0)), use(6, (x, 0)))
+    be = use(2, d_out)
+    b_out = iff(c, bt, be)
+    res = use(0, b_out)
+    if kind == "Loop":
+        out = add("Loop", [(n, 0), None, (x, 0)], [{"args": formals, "res": [[cn, 0], list(res)]}], tys=[V])
+    else:
+        out = add("Scan", [(x, 0), (xs, 0)], [{"args": formals, "res": [list(res)]}], attrs={"num_scan_inputs": 1}, tys=[V])
+    return {"nodes": nodes, "outputs": [[out, 0]], "opset": 17}
